@@ -79,8 +79,7 @@ def main(tier, seed, prop=PROP):
         total = {"%s+%s" % (s, cl) for (s, cl) in trans if s != "X"}
         seen = rep.cov.get("transitions." + m, set()) & total
         covinfo[m] = {"transitions_total": len(total), "transitions_exercised": len(seen)}
-        if len(seen) < len(total):
-            raise core.Inconclusive("reference transition cover incomplete for %s: %s" % (m, sorted(total - seen)[:5]))
+        rep.require(not (len(seen) < len(total)), "reference transition cover incomplete for %s: %s" % (m, sorted(total - seen)[:5]))
         rep.cov.pop("transitions." + m, None)
     rep.assumptions += ["R-LOCAL (two independent implementations, cross-checked on every string) encodes the statement",
                         "inputs contain no NUL; end pointer equals the terminator"]
